@@ -965,6 +965,11 @@ func (w *world) evaluate(group []*obs) {
 				if a.at >= o.start && a.lo < inf {
 					a.lo = 0
 				}
+				if a.at >= o.start && a.kind == 'c' && a.hi > 0 {
+					// a close action may also fire on the last wire byte, after
+					// the complete response: the connection is not used further
+					wc.dead = true
+				}
 			}
 			continue
 		}
@@ -1042,11 +1047,11 @@ func (w *world) evaluate(group []*obs) {
 			switch {
 			case failed:
 				a.lo = 0
-			case c < X:
-				a.lo, a.hi = 0, 0
-				if lo >= inf {
-					a.lo, a.hi = inf, inf
-				}
+			case c < X && a.lo < inf:
+				// somebody passed uncut, which is legal only with the count used
+				// up; the upper bound is kept (if that response was not shaped at
+				// all - a defect reported elsewhere - the count is still there)
+				a.lo, a.hi = 0, sub(a.hi, c)
 			default:
 				a.lo, a.hi = sub(a.lo, c+U), sub(a.hi, c)
 			}
@@ -1464,6 +1469,9 @@ func runNamed(name string) func(c Case) kit.Verdict {
 			v2 := runOnce(c, 3*kit.T())
 			if len(v2) == 0 {
 				kit.Inconclusive(name)
+				for _, f := range v {
+					kit.Note(name, "did not reproduce with the long bound: "+f.Sig)
+				}
 				return nil
 			}
 			return v2
